@@ -5,6 +5,7 @@ import re
 from vt import rx
 from vt.cfg import CFG, enclosing_trys
 from vt.grammar import lexer_tables, shipped_dialects, Dialect
+from rules.C17 import dialect_list
 from vt.model import walk_no_nested, norm, dotted_name, class_attr_value
 from vt.runner import where, AnalysisError
 from rules import common
@@ -171,7 +172,7 @@ def r3_progress_and_token_types(chk):
                 continue
             chk.ob('C11.R3', 'rule %s/not-nullable' % r.name, not rx.nullable(r.parsed(lm.flags)),
                    where(mod, r.fn) if r.fn is not None else LEXER, 'regex %r matches the empty string' % r.pattern)
-    for dname, opts in sorted(shipped_dialects(model).items()):
+    for dname, opts in dialect_list(chk):
         reserved, forbidden, tokens = lexer_tables(model, opts)
         toks = set(tokens)
         bad = sorted(set(v for v in reserved.values() if v not in toks))
@@ -276,7 +277,7 @@ def r5_p_error(chk):
            c.func.attr in ('errok', 'restart', 'token')]
     chk.ob('C11.R5', 'SmiV2Parser.p_error/no-recovery', not rec, where(owner.mod, fn), 'error recovery resumes parsing')
     # grammar has no `error` token productions in any dialect
-    for dname, opts in sorted(shipped_dialects(model).items()):
+    for dname, opts in dialect_list(chk):
         d = Dialect(model, opts)
         bad = [p for p in d.prods if 'error' in p.rhs]
         chk.ob('C11.R5', 'dialect %s/no-error-productions' % dname, not bad, PARSER, '%s' % bad[:2])
